@@ -1309,10 +1309,11 @@ def _build_subscript(
 ) -> Expr:
     left = _build(node.value, parent, **kwargs)
     if parse_strings:
-        if isinstance(left, (ExprAttribute, ExprName)) and left.canonical_path in {
-            "typing.Literal",
-            "typing_extensions.Literal",
-        }:
+        # Only a name, or a dotted chain starting with a name, can refer to `Literal`:
+        # in `f().typing.Literal`, the canonical path of the last name forgets what comes before `typing`.
+        if (
+            isinstance(left, ExprName) or (isinstance(left, ExprAttribute) and isinstance(left.first, ExprName))
+        ) and left.canonical_path in {"typing.Literal", "typing_extensions.Literal"}:
             literal_strings = True
         slice = _build(
             node.slice,
